@@ -78,6 +78,16 @@ class ModelExpr:
         a = p[2:]
         sq = f"(show_q sa {I})"
         rq = f"(show_res {sq})"
+        if op in ("fmt", "ufmt"):
+            fl = a[2:8] if op == "fmt" else a[1:7]
+            al = {"-": "None", "<": "(Some ALeft)", ">": "(Some ARight)", "^": "(Some ACenter)"}[fl[1]]
+            o = lambda x: "None" if x == "-" else f"(Some {int(x)}%N)"
+            sp = f"(mkfspec {int(fl[0])}%N {al} {'true' if fl[2] == '1' else 'false'} {'true' if fl[3] == '1' else 'false'} {o(fl[4])} {o(fl[5])})"
+            if op == "ufmt":
+                return f"show_ustr (Unit_fmt {I} {int(a[0])}%nat {sp})"
+            if T == "AMOUNT":
+                return f"show_ustr (Quantity_fmt {I} {self.q(T, a[0], a[1])} {sp})"
+            return f"show_ustr (tmpl_Display_Qty_none_{self.path(T)} {I} {self.q(T, a[0], a[1])} {sp})"
         if op == "units": return f"show_units {I}"
         if op == "consts": return f"show_consts {T}"
         if op == "scales": return f"show_scales sa {I}"
